@@ -250,7 +250,7 @@ func c45SocketAddr(a string, p uint32) *v3corepb.Address {
 // c45GenLDS:
 //
 //	client side: api_listener {HCM (c45HCM grammar), wrong type, garbage bytes, empty}; name {set, empty}
-//	server side: <=2 filter chains, each match menu (14) x network filter lists (12) x transport socket menu
+//	server side: <=2 filter chains, each match menu (14) x network filter lists (12; quick with two chains: 6) x transport socket menu
 //	  (quick: 3 for one chain, 1 for two chains; thorough: 9 / 3); default filter chain {none, valid, invalid};
 //	  for <=1 chain additionally address {socket, pipe, none} x listener_filters {0,1} x use_original_dst {unset,true}
 func c45GenLDS(c *c45Ch) proto.Message {
@@ -279,7 +279,11 @@ func c45GenLDS(c *c45Ch) proto.Message {
 	for i := 0; i < nfc; i++ {
 		fc := &v3listenerpb.FilterChain{Name: []string{"fc0", "fc1"}[i]}
 		fc.FilterChainMatch = c45FCMatch(c.N(c45MatchMenu))
-		fc.Filters = c45NetFilters(c.N(c45NetFilterKinds))
+		nfMenu := c45NetFilterKinds
+		if nfc == 2 {
+			nfMenu = c.Q(6, c45NetFilterKinds)
+		}
+		fc.Filters = c45NetFilters(c.N(nfMenu))
 		fc.TransportSocket = c45DownstreamTS(tsPick[c.N(tsMenu)])
 		lis.FilterChains = append(lis.FilterChains, fc)
 	}
@@ -550,22 +554,25 @@ func c45ClusterLB(cl *v3clusterpb.Cluster, k int) {
 // c45GenCDS: name {plain, empty, xdstp} x discovery type (23) x lb_policy (17)
 // x load_balancing_policy x transport socket x outlier detection x lrs_server
 // {unset, self, ads} x circuit breakers {unset, default+max, default without
-// max, high only} x {transport_socket_matches, telemetry metadata} (menu
-// widths per tier: see c.Q calls).
+// max, high only}; thorough, with lrs and circuit breakers unset, additionally
+// {transport_socket_matches, telemetry metadata} (menu widths per tier: see
+// the c.Q calls).
 func c45GenCDS(c *c45Ch) proto.Message {
 	cl := &v3clusterpb.Cluster{Name: []string{"cluster-c45", "xdstp://auth/envoy.config.cluster.v3.Cluster/c", ""}[c.N(c.Q(2, 3))]}
 	c45ClusterType(cl, c.N(c45ClusterTypeKinds))
 	c45ClusterLB(cl, c.N(c45LBKinds))
-	cl.LoadBalancingPolicy = c45LoadBalancingPolicy(c.N(c.Q(4, c45LBPKinds)))
-	cl.TransportSocket = c45UpstreamTS([]int{0, 5, 1, 8, 2, 3, 4, 6, 7, 9, 10}[c.N(c.Q(4, c45UpTLSKinds))])
-	cl.OutlierDetection = c45Outlier([]int{0, 6, 2, 1, 3, 4, 5, 7}[c.N(c.Q(3, c45ODKinds))])
-	switch c.N(c.Q(2, 3)) {
+	cl.LoadBalancingPolicy = c45LoadBalancingPolicy([]int{0, 3, 5, 1, 2, 4, 6, 7, 8, 9}[c.N(c.Q(3, c45LBPKinds))])
+	cl.TransportSocket = c45UpstreamTS([]int{0, 5, 8, 1, 2, 3, 4, 6, 7, 9, 10}[c.N(c.Q(3, c45UpTLSKinds))])
+	cl.OutlierDetection = c45Outlier([]int{0, 6, 2, 1, 3, 4, 5, 7}[c.N(c.Q(2, c45ODKinds))])
+	lrs := c.N(c.Q(2, 3))
+	switch lrs {
 	case 1:
 		cl.LrsServer = c45SelfSource
 	case 2:
 		cl.LrsServer = c45AdsSource
 	}
-	switch c.N(c.Q(2, 4)) {
+	cb := c.N(c.Q(2, 4))
+	switch cb {
 	case 1:
 		cl.CircuitBreakers = &v3clusterpb.CircuitBreakers{Thresholds: []*v3clusterpb.CircuitBreakers_Thresholds{{Priority: v3corepb.RoutingPriority_HIGH, MaxRequests: c45U32(9)}, {Priority: v3corepb.RoutingPriority_DEFAULT, MaxRequests: c45U32(math.MaxUint32)}}}
 	case 2:
@@ -573,7 +580,7 @@ func c45GenCDS(c *c45Ch) proto.Message {
 	case 3:
 		cl.CircuitBreakers = &v3clusterpb.CircuitBreakers{Thresholds: []*v3clusterpb.CircuitBreakers_Thresholds{{Priority: v3corepb.RoutingPriority_HIGH, MaxRequests: c45U32(9)}}}
 	}
-	if c.Thorough {
+	if c.Thorough && lrs == 0 && cb == 0 {
 		switch c.N(3) {
 		case 1:
 			cl.TransportSocketMatches = []*v3clusterpb.Cluster_TransportSocketMatch{{Name: "m"}}
